@@ -53,8 +53,8 @@ ACCESS = ("stream", "path")
 # ------------------------------------------------------------------ data
 
 
-def _pcm_values(seed, n):
-    x = sig.signal(seed, n)
+def _pcm_values(seed, n, offset=0):
+    x = sig.signal(seed, n, offset=offset)
     # wrapped, not clipped: sig.signal has a slow ramp and a clipped run would hide rotations
     v = (np.round(x * 6000.0).astype(np.int64) + 32768) % 65536 - 32768
     ext = np.array([32767, -32768, 0, -1, 1], dtype=np.int64)
@@ -63,14 +63,14 @@ def _pcm_values(seed, n):
     return v
 
 
-def _codes(seed, n):
-    x = sig.signal(seed, n)
+def _codes(seed, n, offset=0):
+    x = sig.signal(seed, n, offset=offset)
     return (np.floor(np.abs(x) * 4096.0).astype(np.int64) + np.arange(n)) % 256
 
 
-def _stored(coding, channels, count, seed):
+def _stored(coding, channels, count, seed, offset=0):
     n = count * channels
-    v = _pcm_values(seed, n) if coding.startswith("pcm") else _codes(seed, n)
+    v = _pcm_values(seed, n, offset) if coding.startswith("pcm") else _codes(seed, n, offset)
     if not coding.startswith("pcm") and bytes(v[:4].tolist()) == b"ajkg":
         raise core.HarnessError("seeded codes start with the shorten magic; that is C13's domain")
     return v if channels == 1 else v.reshape(count, channels)
@@ -538,6 +538,243 @@ def _fault_points():
     return [dict(cases=cases[i:i + 64]) for i in range(0, len(cases), 64)]
 
 
+# ------------------------------------------------------------------ call histories, results held
+
+# Files of the history alphabet.  Several share the number of values (count x channels = 12), the
+# result dtype, the coding, the header size or the channel layout pairwise and differ in the rest,
+# so that any state keyed by a subset of these (an output buffer per size / dtype, a table per
+# coding, a header cache ...) is hit by some pair.  name -> (coding, channels, sample count, header
+# variant, content offset, bytes of the data section present (None = all of them))
+HIST_FILES = {
+    "p1a": ("pcm01", 1, 12, "h1024", 11, None),
+    "p1b": ("pcm01", 1, 12, "h1024", 12, None),           # = p1a but for the sample values
+    "p2": ("pcm01", 2, 6, "h1024", 13, None),             # same number of values, two channels
+    "p1s": ("pcm10", 1, 12, "h1024", 14, None),           # other byte order
+    "p1h": ("pcm01", 1, 12, "h2048", 15, None),           # other header size
+    "p1n": ("pcm01", 1, 13, "h1024", 16, None),           # other size
+    "p1t": ("pcm01", 1, 12, "h1024", 17, 15),             # truncated: 7 whole samples and one byte
+    "u1a": ("ulaw", 1, 12, "h1024", 18, None),
+    "u1b": ("ulaw", 1, 12, "h1024", 19, None),
+    "a1": ("alaw", 1, 12, "h1024", 20, None),
+    "u3": ("ulaw", 3, 4, "h1024", 21, None),
+    "m3a": ("pcm01", 3, READ // 6 + 2, "h1024", 22, None),  # two reads, a frame straddles them
+    "m3b": ("pcm01", 3, READ // 6 + 2, "h1024", 23, None),
+}
+HIST_DTYPES = (None, "float32", "uint8")
+# alphabets of calls (file, requested dtype, access): Cartesian products; validity: 16-bit PCM with
+# a 1-byte dtype is outside the property
+HIST_ALPHABETS = {
+    "full": (tuple(HIST_FILES), HIST_DTYPES, ACCESS),
+    "stream": (tuple(HIST_FILES), (None, "float32"), ("stream",)),
+}
+HIST_PLAN = {"quick": (("full", 2), ("stream", 3)), "thorough": (("full", 3),)}
+
+
+def _hist_calls(alphabet):
+    files, dtypes, accesses = HIST_ALPHABETS[alphabet]
+    out = []
+    for f in files:
+        for dt in dtypes:
+            if HIST_FILES[f][0].startswith("pcm") and dt is not None and np.dtype(dt).itemsize == 1:
+                continue
+            for a in accesses:
+                out.append((f, dt, a))
+    return out
+
+
+_HIST_CACHE = {}
+
+
+def _hist_file(name, seed):
+    """-> dict(data=bytes, want={dtype: array}, truncated=bool, values=int, coding, channels)"""
+    key = (name, seed)
+    if key not in _HIST_CACHE:
+        coding, ch, count, variant, off, present = HIST_FILES[name]
+        stored = _stored(coding, ch, count, seed, offset=off)
+        body = sph.encode_samples(coding, stored)
+        fs = ch * sph.bytes_per_sample(coding)
+        n = count
+        if present is not None:
+            if not 0 <= present < len(body):
+                raise core.HarnessError("not a truncation: %r" % (name,))
+            body, n = body[:present], present // fs
+        want = {}
+        for dt in HIST_DTYPES:
+            w = _expected(coding, stored[:n], dt)
+            if w is not None:
+                want[dt] = w
+        _HIST_CACHE[key] = dict(data=sph.header_variant(variant, coding, ch, count) + body, want=want,
+                                truncated=present is not None, count=count, coding=coding, channels=ch)
+    return _HIST_CACHE[key]
+
+
+def _lib_state():
+    """module-level data of pydrobert.speech.config and ._sphere that no read may change: numbers,
+    strings, sets, tuples and arrays (the G.711 tables).  dicts / lists are left out: a cache may
+    grow; whether it may be *visible* is what the held results decide."""
+    import hashlib
+
+    from pydrobert.speech import _sphere, config
+
+    out = {}
+    for mod in (config, _sphere):
+        for name, v in vars(mod).items():
+            if name.startswith("__"):
+                continue
+            if isinstance(v, np.ndarray):
+                out[mod.__name__ + "." + name] = hashlib.sha1(
+                    repr((v.dtype.str, v.shape)).encode() + np.ascontiguousarray(v).tobytes()).hexdigest()
+            elif isinstance(v, (set, frozenset)):
+                out[mod.__name__ + "." + name] = repr(sorted(map(repr, v)))
+            elif isinstance(v, (bool, int, float, str, bytes, tuple)):
+                out[mod.__name__ + "." + name] = repr(v)
+    return out
+
+
+def _relation(calls, files, i, j):
+    """structural relation of calls i < j of a history (tags of a history violation)"""
+    (fi, di, _), (fj, dj, _) = calls[i], calls[j]
+    wi, wj = files[fi]["want"][di], files[fj]["want"][dj]
+    return dict(same_file=(fi == fj), same_value_count=(wi.size == wj.size),
+                same_result_dtype=(wi.dtype == wj.dtype), same_coding=(files[fi]["coding"] == files[fj]["coding"]))
+
+
+def _scribble(a):
+    """the caller owns a returned array: overwrite it with values no file holds"""
+    if not isinstance(a, np.ndarray) or not a.flags.writeable or not a.size:
+        return False
+    a[...] = 21 if a.dtype.kind in "iu" else 21.5
+    return True
+
+
+def _history_child(calls, files, tmpdir):
+    """runs in a forked child (state 'just imported').  -> dict(viol=[[tags, detail]], obs=[...])"""
+    viol, obs = [], []
+    state0 = _lib_state()
+    held = []            # (returned object, copy taken when it was returned, judged correct then)
+
+    def read(j, phase):
+        fname, dtype, access = calls[j]
+        f = files[fname]
+        data = f["data"]
+        from pydrobert.speech import util
+
+        with warnings.catch_warnings(record=True) as w:
+            warnings.simplefilter("always")
+            try:
+                if access == "stream":
+                    out = util.read_signal(io.BytesIO(data), dtype=dtype, force_as="sph")
+                else:
+                    out = util.read_signal(os.path.join(tmpdir, fname + ".sph"), dtype=dtype)
+                r = ("ok", out)
+            except Exception as e:
+                r = ("exc", e)
+        want = f["want"][dtype]
+        tags = dict(sub="histories", phase=phase, first_call=(j == 0), truncated=f["truncated"])
+        where = "call %d of %r" % (j + 1, [list(c) for c in calls])
+        if r[0] == "exc":
+            viol.append([dict(tags, what="call_differs", aspect="exception", exc=type(r[1]).__name__),
+                         "%s raised %s: %s" % (where, type(r[1]).__name__, _clean(r[1]))])
+            return None, False
+        c = _compare(r[1], want, f["coding"], f["channels"], tags,
+                     header_count=f["count"] if f["truncated"] else None)
+        if c is not None:
+            viol.append([dict(tags, what="call_differs", aspect=c[0]),
+                         "%s (%s): %s" % (where, "after every array returned so far was overwritten by the "
+                                          "caller and the sequence repeated" if phase == "repeat" else
+                                          "results held", c[1])])
+        elif f["truncated"] and not w:
+            viol.append([dict(tags, what="call_differs", aspect="no_warning"),
+                         "%s: truncated file, no warning issued" % where])
+        return r[1], c is None
+
+    for phase in ("first", "repeat"):
+        if phase == "repeat":
+            if not any([_scribble(h[0]) for h in held]):
+                break
+            held = []
+        for j in range(len(calls)):
+            got, good = read(j, phase)
+            obs.append("ok" if good else "differs")
+            held.append((got, None if not isinstance(got, np.ndarray) else got.copy(), good))
+            for i in range(j):
+                a, cp, ok = held[i]
+                if ok and cp is not None and not (a.shape == cp.shape and np.array_equal(a, cp)):
+                    held[i] = (a, cp, False)        # reported once
+                    viol.append([dict(_relation(calls, files, i, j), sub="histories", phase=phase,
+                                      what="held_result_overwritten"),
+                                 "the array returned by call %d of %r (held by the caller) changed while "
+                                 "call %d ran: %d of %d values differ from what was returned" % (
+                                     i + 1, [list(c) for c in calls], j + 1,
+                                     int(np.sum(a.reshape(-1) != cp.reshape(-1))) if a.shape == cp.shape else -1,
+                                     cp.size)])
+            now = _lib_state()
+            changed = sorted(k for k in state0 if now.get(k) != state0[k])
+            if changed:
+                viol.append([dict(sub="histories", what="module_state_changed", names=changed),
+                             "after call %d of %r: module-level %r changed" % (
+                                 j + 1, [list(c) for c in calls], changed)])
+                state0 = now
+        for i in range(len(held)):
+            for j in range(i + 1, len(held)):
+                a, b = held[i][0], held[j][0]
+                if isinstance(a, np.ndarray) and isinstance(b, np.ndarray) and a.size and b.size \
+                        and np.shares_memory(a, b):
+                    viol.append([dict(_relation(calls, files, i, j), sub="histories", phase=phase,
+                                      what="results_share_memory"),
+                                 "the arrays returned by calls %d and %d of %r share memory" % (
+                                     i + 1, j + 1, [list(c) for c in calls])])
+    return dict(viol=viol, obs=obs)
+
+
+def _history_case(calls, seed, tmpdir):
+    """one history in a forked child -> (violations, obs)"""
+    from pydrobert.speech import _sphere, config, util  # noqa: F401  (imported, never called, by the parent)
+
+    from .. import crash
+
+    calls = [tuple(c) for c in calls]
+    files = {f: _hist_file(f, seed) for f, _, _ in calls}
+    for f, dt, _ in calls:
+        if dt not in files[f]["want"]:
+            raise core.HarnessError("call outside the property: %r" % ((f, dt),))
+    for f in files:
+        p = os.path.join(tmpdir, f + ".sph")
+        if not os.path.exists(p):
+            with open(p, "wb") as g:
+                g.write(files[f]["data"])
+    case = dict(kind="history", calls=[list(c) for c in calls])
+    r = crash.in_fork(lambda: _history_child(calls, files, tmpdir))
+    if r[0] == "raised":
+        raise core.HarnessError("history child: %s" % r[1])
+    if r[0] != "ok":
+        return [core.violation(dict(sub="histories", what="interpreter_" + r[0]),
+                               "history %r: the interpreter %s (%s)" % (case["calls"], r[0], r[1]), case)], r[0]
+    return [core.violation(t, d, case) for t, d in r[1]["viol"]], ",".join(r[1]["obs"])
+
+
+def _histories(pt, seed):
+    """pt = (alphabet, depth, index of the first call): every history of 1..depth calls that starts
+    with that call, each in its own forked child"""
+    import itertools
+
+    alphabet, depth, first = pt
+    calls = _hist_calls(alphabet)
+    viol, obs, evals, nontriv = [], set(), 0, 0
+    with _Tmp() as tmp:
+        for n in range(0, depth):
+            for rest in itertools.product(range(len(calls)), repeat=n):
+                seq = [calls[first]] + [calls[k] for k in rest]
+                v, o = _history_case(seq, seed, tmp)
+                viol += v
+                evals += 1
+                nontriv += int(len(seq) > 1)
+                obs.add(o)
+    return core.result(viol, evals=evals, nontrivial_count=nontriv, obs=sorted(obs),
+                       sample=dict(alphabet=alphabet, depth=depth, first_call=list(calls[first]),
+                                   inner="every continuation of 0..%d further calls" % (depth - 1)))
+
+
 # ------------------------------------------------------------------ replay / registration
 
 
@@ -557,6 +794,8 @@ def _replay(case, seed):
             return core.result(_trunc_case(c, seed, tmp)[0])
         if k == "fault":
             return core.result(_fault_case(c, seed, tmp)[0])
+        if k == "history":
+            return core.result(_history_case(c["calls"], seed, tmp)[0])
     raise core.HarnessError("cannot replay %r" % (case,))
 
 
@@ -597,7 +836,29 @@ def subchecks(tier, seed):
             fs = ch * sph.bytes_per_sample(c)
             count = 3 * (READ // fs) + 3
             tr.append((c, ch, "h1024", count, _boundary_lengths(fs, count, 3)))
+    hist = [(alph, depth, i) for alph, depth in HIST_PLAN[tier] for i in range(len(_hist_calls(alph)))]
     return [
+        # first in the list: its children must start from the state "just imported" also when
+        # every sub-check runs in one process (VERIF_NPROC=1)
+        core.SubCheck(
+            "histories", hist, lambda p: _histories(p, seed),
+            "call histories in ONE interpreter, every result HELD by the caller: alphabet of calls = file "
+            "{%s} x requested dtype {None,float32,uint8} x {stream,path} (16-bit PCM with a 1-byte dtype is "
+            "outside the property); %s; each history runs in its own forked child (state 'just imported'); "
+            "after every call: the result equals the stored samples (truncated file: the whole samples "
+            "present + a warning), every array returned earlier still equals what it was when returned, "
+            "the module-level data of config / _sphere (numbers, sets, G.711 tables) is unchanged; after "
+            "the last call no two returned arrays share memory; then the caller overwrites every "
+            "returned array and the whole sequence is repeated with the same demands; non-trivial = more "
+            "than one call" % (
+                ", ".join("%s=%s %dch %d samples %s%s" % ((k,) + v[:4] + (" truncated" if v[5] else "",))
+                          for k, v in HIST_FILES.items()),
+                "; ".join("every sequence of 1..%d calls over the %s alphabet (%d calls)" % (
+                    d, a, len(_hist_calls(a))) for a, d in HIST_PLAN[tier])),
+            axes=dict(files={k: list(v) for k, v in HIST_FILES.items()}, dtypes=list(HIST_DTYPES),
+                      alphabets={a: [list(x) for x in HIST_ALPHABETS[a]] for a, _ in HIST_PLAN[tier]},
+                      depth={a: d for a, d in HIST_PLAN[tier]}),
+            replay=lambda case: _replay(case, seed), kind="histories"),
         core.SubCheck(
             "lattice", lat, lambda p: _lattice(p, seed),
             "own-writer files decoded by read_signal(force_as='sph'); per point (coding, channels, "
